@@ -13,7 +13,7 @@
    size + MaxSize < 2^64 (no uint64 wrap in TryReserve). *)
 From Coq Require Import List NArith ZArith Bool.
 From K.Model Require Import C13.
-From K.Proof Require C13 C13_lru.
+From K.Proof Require C13 C13_lru C13_pinned.
 Import ListNotations.
 Local Open Scope N_scope.
 
@@ -118,6 +118,16 @@ Theorem C13_size_mismatch_leak_refuted :
 Proof. exact Proof.C13.size_mismatch_leak. Qed.
 Print Assumptions C13_size_mismatch_leak_refuted.
 
+(* the mismatch is the whole defect: on every history in which each write callback delivers as
+   many bytes as were reserved, the code as pinned runs exactly like the fixed code, hence
+   balances and stays within budget (partial: says nothing when a length differs) *)
+Theorem C13_pinned_balance_partial : forall max ttl mr ops,
+  proto max ops = true -> lens_ok (init max ttl mr) ops = true ->
+  let y := sy (fst (run false (init max ttl mr) ops)) in
+  total y = held y + reserved y /\ total y <= max.
+Proof. exact Proof.C13_pinned.pinned_balance_partial. Qed.
+Print Assumptions C13_pinned_balance_partial.
+
 (* outside the no-wrap guard: `totalSize+size` wraps and the reservation is admitted *)
 Theorem C13_wrap_refuted :
   exists max ops t name sz,
@@ -184,16 +194,17 @@ Print Assumptions C13_lru_defaults_tied.
 
 (* a protocol history with two concurrent callers of one blob (the second Add is refused and
    released later, after a third caller was admitted), a failed write, a drain and an expiry *)
-Definition ex_ops : list op :=
-  [A (PReserve 1 0 40); A (PReserve 2 0 40); A (PEnd 1 (WData 40) 0%Z); A (PEnd 2 (WData 40) 0%Z);
-   A (PReserve 3 1 40); A (PRelease 2); A (PReserve 4 1 40); WtEnd 4 WErr; A (PReserve 5 1 30);
-   WtEnd 5 (WData 30); Drain true; Tick 2000; Expire].
 Example C13_nonvacuous_history :
   proto 100 ex_ops = true /\
   map (fun x => (fst x, fst (snd x))) (snd (run true (init 100 1000 1) ex_ops)) =
   [(OBool true, 40); (OBool true, 80); (OBool true, 80); (OBool false, 80); (OBool false, 80);
    (OUnit, 40); (OBool true, 80); (OUnit, 40); (OBool true, 70); (OUnit, 70); (OUnit, 40);
    (OUnit, 40); (OUnit, 0)].
+Proof. vm_compute. split; reflexivity. Qed.
+
+Example C13_nonvacuous_lens_ok :
+  lens_ok (init 100 1000 1) ex_ops = true /\
+  lens_ok (init 10 1000 1) [A (PReserve 1 0 1); WtEnd 1 (WData 100)] = false.
 Proof. vm_compute. split; reflexivity. Qed.
 
 (* hypotheses of C13_failed_write_releases / C13_release_any_interleaving are met *)
@@ -211,8 +222,6 @@ Example C13_oracle_flags_mismatch :
 Proof. vm_compute. split; reflexivity. Qed.
 
 (* LRU: capacity 2; 0 is refreshed, so adding 2 drops 1; the hypotheses of C13_lru_order hold for v = 1 *)
-Definition ex_lops : list (lop * Z) :=
-  [(LAdd 0 0%Z, 0%Z); (LAdd 1 1%Z, 1%Z); (LAdd 0 2%Z, 2%Z)].
 Example C13_nonvacuous_lru :
   let c := fst (lrun (linit 2 100) ex_lops) in
   map l_key (l_ents c) = [1; 0] /\
